@@ -5,19 +5,28 @@ from checks import raft_witness
 META = dict(
     engine="coq+hx_raft",
     technique="Coq: executable model of raft.rs; unconditional invariant proofs for commit monotonicity and stability of committed entries; refutation witnesses for agreement by vm_compute; "
+              "conditional proof of agreement (log matching, leader completeness, state-machine safety as inductive invariants over all event lists) under the negation of three decidable defect markers; "
               "differential correspondence with the real raft.rs after every event; direct oracles (commit decrease, committed entry replaced, committed entries differ) on the implementation's states",
     level_text="Machine-checked for every cluster size other than the degenerate 1 and every adversarial event list: (a) a node's commit index never decreases, "
                "(b) an entry at a committed index of a node is never removed or replaced there. (c) agreement between nodes is machine-checked FALSE of the faithful model: "
-               "witness histories with a single leader per term show three independent causes (Append accepted without a previous-entry check; leader commits an old-term entry by counting replicas; a voter keeps its old term and acknowledges the old leader's Append), "
-               "plus the two election defects of C27; all are reproduced on the real code and recorded as known findings. The model carries the revision of the election code "
-               "(C27): the check reads raft.rs and compares with the model of that revision; the first two causes are machine-checked for EVERY revision, the third and the election "
-               "defects only before the C27 repairs - on a tree with the repairs their classes are no longer accepted as known findings. The model is tied to /repo on every run by comparing "
+               "witness histories with a single leader per term show FOUR independent causes - Append accepted without a previous-entry check (ack-from-diverged-log); leader commits an old-term entry by counting replicas (old-term-commit); "
+               "leader counts a peer-table row that is not an acknowledgement of its current term and commits an entry held by fewer than a quorum (commit-without-quorum, NEW: found while attempting the conditional proof, 5 nodes, "
+               "not found by the random search; rows are never reset on election, update_node writes them from the peer's own requests before validation, response() accepts acknowledgements of any term); a voter keeps its old term and acknowledges the old leader's Append (only before the C27 repairs) - "
+               "plus the two election defects of C27; all are reproduced on the real code and recorded as known findings. "
+               "CONDITIONAL THEOREM (C28c_partial), machine-checked for the code now in /repo (model revision rr_fixed = with both C27 election repairs), every cluster size other than 1 and every adversarial event list: "
+               "if none of the three log-replication markers (ack-from-diverged-log, old-term-commit, commit-without-quorum) occurs in the run, no two nodes hold different entries at an index both have committed; "
+               "i.e. these three classes are the ONLY ways the repaired raft.rs can violate (c). Intermediate theorems pinned: log matching under the first marker alone (C28_log_matching_partial), well-formed logs, "
+               "and 'every committed index of every node was committed by a leader with the entry the node holds'. The hypotheses are non-vacuous (fault-free 3-node history with two entries committed everywhere). "
+               "The model carries the revision of the election code (C27): the check reads raft.rs and compares with the model of that revision; the refutations through the three log-replication classes are machine-checked for EVERY revision, "
+               "the others only before the C27 repairs - on a tree with the repairs their classes are no longer accepted as known findings. The model is tied to /repo on every run by comparing "
                "complete cluster states after every event of seeded adversarial event lists; any disagreement of committed entries outside the listed classes, and any commit decrease "
                "or replaced committed entry at all, is a VIOLATION.",
     design_ref="DESIGN.md §5 C28, C27–C30 common",
-    level_note="Theorems are about the model; the tie to the code is differential execution. (c) has no conditional theorem yet (it needs the log-matching and leader-completeness "
-               "invariants of the repaired protocol); the classification of failing histories is by decidable markers computed from the history itself.",
+    level_note="Theorems are about the model; the tie to the code is differential execution. (c) is NOT a theorem of the code as it is (three open defect classes, known findings); what is proved is that nothing else can break it. "
+               "The third marker is semantic (at a leader's commit fewer than size/2+1 nodes of the leader's term hold its entry at that index), computed from the run, not from the ghost history; it also fires in some harmless histories "
+               "(a follower that acknowledged and then moved to a higher term), so the conditional theorem is weaker than a theorem about a repaired protocol would be. The one-node cluster is excluded.",
 )
+
 
 RULE = ("corpus witnesses of the _refuted lemmas, then seeded random adversarial event lists (deliver/tick/append/drop/duplicate, <=60 events, 3 and 5 nodes); per event the "
         "printed cluster state of the extracted model is compared with the implementation's; non-trivial = at least one leader elected")
